@@ -259,6 +259,12 @@ def run_messages(sh, lab, n):
             got_o, got_e = so.fetch(), se.fetch()
             if got_o != p or got_e != p + "\n":
                 sh.violate("undecorated-output", case, "%s output (stream %s ANSI) wrote %r / %r, intended %r" % (deco, "claiming" if ansi_stream else "without", got_o, got_e, p))
+            # components format pieces with io.format() / output.format() and write them afterwards: on an undecorated
+            # output that may not bring escape bytes in either
+            pre = [io.format(m), io.output.format(m), io.error_output.format(m)]
+            if any("\x1b" in x for x in pre):
+                sh.violate("undecorated-output", case, "%s output (stream %s ANSI): format() of the undecorated I/O returns escape bytes: %r" % (
+                    deco, "claiming" if ansi_stream else "without", [x for x in pre if "\x1b" in x][0][:80]))
             if i % 4 == 0:
                 # sections of an undecorated output: rewriting and clearing degrade to appended lines, never cursor codes
                 so.clear()
